@@ -43,6 +43,7 @@ def pendI (pc : IPc) (c : Nat) : List Mx :=
   match pc with
   | .sel => [(.O, c), (.U, c)]
   | .x0 => [(.U, c)]
+  | .x4 => [(.O, c)]
   | .g st => pendG st c
   | _ => []
 
